@@ -82,14 +82,16 @@ def fold(s):
 def strings(dialect):
     out = []
     raw = ["abc", "a b", "it's", 'say "hi"', "a = 1", "x, y", "(1)", "{1}", "<m>", "a;b", "/* c */",
-           "# c", "END", "GROUP", "1", "1.5", "2001-01-01", "NULL", "", "a \n b", "x\r\n  y", "-"]
+           "# c", "END", "GROUP", "1", "1.5", "2001-01-01", "NULL", "", "a \n b", "x\r\n  y", "-",
+           # content that begins and ends with the other quote character, lone quote characters
+           "'nominal'", '"nominal"', "''", '""', "'", '"', "'a", 'a"', "'a' 'b'"]
     for s in raw:
         exp = fold(s) if dialect in FOLDING else s
         if '"' not in s:
             out.append(('"%s"' % s, exp, "qstr"))
         if "'" not in s:
             out.append(("'%s'" % s, exp, "qstr"))
-    un = ["abc", "ABC_1", "a1", "Abc"]
+    un = ["abc", "ABC_1", "a1", "Abc", "A__B", "A_B_C", "a__1", "A1_2_c"]
     if dialect in ("PVL", "ISIS", "OMNI"):
         un += ["a.b", "a-b", "a:b", "x/y", "a*b", "a_", "_a", "a@b", "a$b", "a\\b", "a?", "a^b", "a`b"]
     if dialect in ("ISIS", "OMNI"):
